@@ -4,7 +4,7 @@
    (be = big-endian value), i.e. a and x agree on their first p bits. This ties the byte-level model
    of Model/Iface.v ([contains], [ip_mask], [masked_eqb]) to the usual notion of a subnet. *)
 From Coq Require Import ZArith List Bool Lia.
-From SX Require Import Model.Iface.
+From SX Require Import Model.Iface Proofs.IfaceProofs.
 Import ListNotations.
 Open Scope Z_scope.
 
@@ -121,7 +121,7 @@ Proof.
       assert (He : 0 <= e <= 8 * Z.of_nat n) by (unfold e; lia).
       assert (HWe : W = 2 ^ e * 2 ^ (8 * Z.of_nat n - e))
         by (unfold W; rewrite <- Z.pow_add_r by lia; f_equal; lia).
-      rewrite HWe in *. symmetry. apply div_weighted; try lia. apply Z.pow_pos_nonneg; lia.
+      rewrite HWe in *. symmetry. apply div_weighted; first [lia|apply Z.pow_pos_nonneg; lia].
     + apply Z.leb_gt in E8. cbn [masked_eqb].
       rewrite andb_true_iff, Z.eqb_eq.
       assert (Hrest : masked_eqb bs (cidr_mask 0 n) xs = true).
@@ -132,8 +132,168 @@ Proof.
       rewrite Z.pow_add_r by lia. fold W.
       assert (Hj : 0 < 2 ^ (8 - p)) by (apply Z.pow_pos_nonneg; lia).
       rewrite <- !Z.div_div by lia.
-      rewrite !(Z.mul_comm _ W), !Z.div_add_l by lia. rewrite !(Z.div_small _ W) by lia. rewrite !Z.add_0_r.
+      rewrite !Z.div_add_l by lia. rewrite !(Z.div_small _ W) by lia. rewrite !Z.add_0_r.
       split.
       * intros [H _]. apply Z.eqb_eq. rewrite <- Hbyte. apply Z.eqb_eq. exact H.
       * intros H. split; [|reflexivity]. apply Z.eqb_eq. rewrite Hbyte. apply Z.eqb_eq. exact H.
+Qed.
+
+(* ------------------------------------------------------------------ IP.Mask *)
+
+Definition land_ok (j b : Z) : bool := Z.land b (256 - 2 ^ j) =? b / 2 ^ j * 2 ^ j.
+
+Lemma land_sweep_ok :
+  forallb (fun j => forallb (fun b => land_ok j b) all_bytes) [0; 1; 2; 3; 4; 5; 6; 7; 8] = true.
+Proof. vm_compute. reflexivity. Qed.
+
+Lemma land_sound js bs :
+  forallb (fun j => forallb (fun b => land_ok j b) bs) js = true ->
+  forall j b, In j js -> In b bs -> land_ok j b = true.
+Proof.
+  intros H j b Hj Hb. rewrite forallb_forall in H. specialize (H j Hj).
+  rewrite forallb_forall in H. exact (H b Hb).
+Qed.
+
+Lemma land_mask_spec j b : 0 <= j <= 8 -> 0 <= b < 256 -> Z.land b (256 - 2 ^ j) = b / 2 ^ j * 2 ^ j.
+Proof.
+  intros Hj Hb. assert (Hin : In j [0; 1; 2; 3; 4; 5; 6; 7; 8]) by (cbn; lia).
+  pose proof (land_sound _ _ land_sweep_ok j b Hin (in_all_bytes b Hb)) as H.
+  unfold land_ok in H. apply Z.eqb_eq in H. exact H.
+Qed.
+
+Lemma and_bytes_spec : forall n xs q,
+  List.length xs = n -> bytes xs -> 0 <= q <= 8 * Z.of_nat n ->
+  bytes (and_bytes xs (cidr_mask q n)) /\ List.length (and_bytes xs (cidr_mask q n)) = n /\
+  be (and_bytes xs (cidr_mask q n)) = be xs / 2 ^ (8 * Z.of_nat n - q) * 2 ^ (8 * Z.of_nat n - q).
+Proof.
+  induction n as [|n IH]; intros xs q Lx Hx Hq.
+  - destruct xs; [|discriminate]. cbn. split; [constructor|]. split; reflexivity.
+  - destruct xs as [|x xs]; [discriminate|]. injection Lx as Lx.
+    pose proof (Forall_inv Hx) as Hx0. pose proof (Forall_inv_tail Hx) as Hxs. cbn beta in Hx0.
+    pose proof (be_range xs Hxs) as RX. rewrite Lx in RX.
+    cbn [cidr_mask]. set (W := 2 ^ (8 * Z.of_nat n)) in *.
+    assert (HW : 0 < W) by (apply Z.pow_pos_nonneg; lia).
+    destruct (8 <=? q) eqn:E8.
+    + apply Z.leb_le in E8. cbn [and_bytes].
+      replace (Z.land x 255) with x by (symmetry; change 255 with (Z.ones 8); rewrite Z.land_ones by lia; apply Z.mod_small; lia).
+      destruct (IH xs (q - 8) Lx Hxs ltac:(lia)) as (Hby & Hlen & Hbe).
+      split; [constructor; assumption|]. split; [cbn; rewrite Hlen; reflexivity|].
+      cbn [be]. rewrite Hlen, Hbe, Lx. fold W.
+      replace (8 * Z.of_nat (S n) - q) with (8 * Z.of_nat n - (q - 8)) by lia.
+      set (e := 8 * Z.of_nat n - (q - 8)).
+      assert (He : 0 <= e <= 8 * Z.of_nat n) by (unfold e; lia).
+      assert (HWe : W = 2 ^ (8 * Z.of_nat n - e) * 2 ^ e)
+        by (unfold W; rewrite <- Z.pow_add_r by lia; f_equal; lia).
+      assert (Hp : 0 < 2 ^ e) by (apply Z.pow_pos_nonneg; lia).
+      rewrite HWe. rewrite Z.mul_assoc, Z.div_add_l by lia. ring.
+    + apply Z.leb_gt in E8. cbn [and_bytes].
+      destruct (IH xs 0 Lx Hxs ltac:(lia)) as (Hby & Hlen & Hbe).
+      rewrite Z.sub_0_r in Hbe. fold W in Hbe. rewrite (Z.div_small _ W) in Hbe by lia. rewrite Z.mul_0_l in Hbe.
+      rewrite (land_mask_spec (8 - q) x ltac:(lia) Hx0).
+      assert (Hj : 0 < 2 ^ (8 - q)) by (apply Z.pow_pos_nonneg; lia).
+      assert (Hxd : 0 <= x / 2 ^ (8 - q) * 2 ^ (8 - q) <= x).
+      { split; [apply Z.mul_nonneg_nonneg; [apply Z.div_pos; lia|lia]|]. rewrite Z.mul_comm. apply Z.mul_div_le. lia. }
+      split; [constructor; [lia|assumption]|]. split; [cbn; rewrite Hlen; reflexivity|].
+      cbn [be]. rewrite Hlen, Hbe, Lx. fold W.
+      replace (8 * Z.of_nat (S n) - q) with (8 * Z.of_nat n + (8 - q)) by lia.
+      rewrite Z.pow_add_r by lia. fold W.
+      rewrite <- Z.div_div by lia. rewrite Z.div_add_l by lia. rewrite (Z.div_small _ W) by lia. rewrite !Z.add_0_r.
+      generalize (2 ^ (8 - q)) (x / 2 ^ (8 - q)). intros J D. ring.
+Qed.
+
+(* ------------------------------------------------------------------ Contains / covers, IPv4 *)
+
+(* an IPv4 interface address as Go reports it on Linux: 16-byte IP with the ::ffff:0:0/96 prefix,
+   4-byte mask CIDRMask(p, 32) *)
+Definition v4_addr (b : list Z) (p : Z) : addr :=
+  {| a_ip := v4in6_prefix ++ b; a_mask := cidr_mask p 4; a_ipnet := true |}.
+
+(* an IPv4 target as ip.ParseIPNet produces it: 4-byte IP, 4-byte mask CIDRMask(q, 32) *)
+Definition v4_target (tb : list Z) (q : Z) : target := {| t_ip := tb; t_mask := cidr_mask q 4 |}.
+
+Lemma to4_mapped b : List.length b = 4%nat -> to4 (v4in6_prefix ++ b) = Some b.
+Proof.
+  intros H. destruct b as [|b0 [|b1 [|b2 [|b3 [|? ?]]]]]; try discriminate. reflexivity.
+Qed.
+
+Lemma to4_four b : List.length b = 4%nat -> to4 b = Some b.
+Proof. intros H. unfold to4, len. rewrite H. reflexivity. Qed.
+
+Lemma net_num_mask_v4 b p : List.length b = 4%nat -> net_num_mask (v4_addr b p) = (b, cidr_mask p 4).
+Proof.
+  intros Lb. unfold net_num_mask, v4_addr. cbn [a_ip a_mask]. rewrite (to4_mapped b Lb).
+  unfold len. rewrite cidr_mask_length, Lb. reflexivity.
+Qed.
+
+Lemma contains_v4 b p x :
+  List.length b = 4%nat -> List.length x = 4%nat -> bytes b -> bytes x -> 0 <= p <= 32 ->
+  (contains (v4_addr b p) x = true <-> be b / 2 ^ (32 - p) = be x / 2 ^ (32 - p)).
+Proof.
+  intros Lb Lx Hb Hx Hp. unfold contains. rewrite (net_num_mask_v4 b p Lb), (to4_four x Lx).
+  unfold len. rewrite Lb, Lx. change (Z.of_nat 4 =? Z.of_nat 4) with true. cbn [andb].
+  change (32 - p) with (8 * Z.of_nat 4 - p). apply masked_eqb_spec; assumption.
+Qed.
+
+Lemma ip_mask_v4 tb q : List.length tb = 4%nat -> ip_mask tb (cidr_mask q 4) = and_bytes tb (cidr_mask q 4).
+Proof.
+  intros L. unfold ip_mask, len. rewrite cidr_mask_length, L.
+  change (Z.of_nat 4 =? 16) with false. cbn [andb].
+  rewrite !cidr_mask_length. change (Z.of_nat 4 =? 4) with true. cbn [andb].
+  rewrite L. reflexivity.
+Qed.
+
+(* the code's attachment test for IPv4, in arithmetic: the interface address and the target's BASE
+   address (its IP with the last 32-q bits cleared) agree on their first p bits *)
+Lemma contains_base_v4 tb q b p :
+  List.length tb = 4%nat -> List.length b = 4%nat -> bytes tb -> bytes b -> 0 <= q <= 32 -> 0 <= p <= 32 ->
+  (contains (v4_addr b p) (ip_mask tb (cidr_mask q 4)) = true <->
+   be b / 2 ^ (32 - p) = (be tb / 2 ^ (32 - q) * 2 ^ (32 - q)) / 2 ^ (32 - p)).
+Proof.
+  intros Lt Lb Ht Hb Hq Hp. rewrite (ip_mask_v4 tb q Lt).
+  destruct (and_bytes_spec 4 tb q Lt Ht ltac:(cbn; lia)) as (Hby & Hlen & Hbe).
+  rewrite (contains_v4 b p _ Lb Hlen Hb Hby Hp). rewrite Hbe. reflexivity.
+Qed.
+
+(* when the target is no larger than the interface's network (q >= p) this is plain membership of
+   the whole target in that network: target and interface address agree on the first p bits *)
+Lemma base_div tb q p :
+  0 <= p <= q -> q <= 32 ->
+  (tb / 2 ^ (32 - q) * 2 ^ (32 - q)) / 2 ^ (32 - p) = tb / 2 ^ (32 - p).
+Proof.
+  intros Hp Hq. set (u := 32 - q). set (v := 32 - p).
+  assert (Hu : 0 <= u <= v) by (unfold u, v; lia).
+  assert (Hv : 2 ^ v = 2 ^ u * 2 ^ (v - u)) by (rewrite <- Z.pow_add_r by lia; f_equal; lia).
+  assert (H1 : 0 < 2 ^ u) by (apply Z.pow_pos_nonneg; lia).
+  assert (H2 : 0 < 2 ^ (v - u)) by (apply Z.pow_pos_nonneg; lia).
+  rewrite Hv. rewrite <- !Z.div_div by lia. rewrite Z.div_mul by lia. reflexivity.
+Qed.
+
+Lemma contains_base_v4_subnet tb q b p :
+  List.length tb = 4%nat -> List.length b = 4%nat -> bytes tb -> bytes b -> 0 <= p <= q -> q <= 32 ->
+  (contains (v4_addr b p) (ip_mask tb (cidr_mask q 4)) = true <-> be b / 2 ^ (32 - p) = be tb / 2 ^ (32 - p)).
+Proof.
+  intros Lt Lb Ht Hb Hp Hq. rewrite (contains_base_v4 tb q b p Lt Lb Ht Hb ltac:(lia) ltac:(lia)).
+  rewrite (base_div (be tb) q p Hp Hq). reflexivity.
+Qed.
+
+(* the same two facts for [covers], the attachment test of the theorems of Properties/C17.v *)
+Lemma covers_v4 tb q b p :
+  List.length tb = 4%nat -> List.length b = 4%nat -> bytes tb -> bytes b -> 0 <= q <= 32 -> 0 <= p <= 32 ->
+  (covers (v4_target tb q) (v4_addr b p) = true <->
+   be b / 2 ^ (32 - p) = (be tb / 2 ^ (32 - q) * 2 ^ (32 - q)) / 2 ^ (32 - p)).
+Proof. intros. unfold covers, v4_target. cbn [t_ip t_mask a_ipnet v4_addr andb]. apply contains_base_v4; assumption. Qed.
+
+Lemma covers_v4_subnet tb q b p :
+  List.length tb = 4%nat -> List.length b = 4%nat -> bytes tb -> bytes b -> 0 <= p <= q -> q <= 32 ->
+  (covers (v4_target tb q) (v4_addr b p) = true <-> be b / 2 ^ (32 - p) = be tb / 2 ^ (32 - p)).
+Proof. intros. unfold covers, v4_target. cbn [t_ip t_mask a_ipnet v4_addr andb]. apply contains_base_v4_subnet; assumption. Qed.
+
+(* an IPv6 address never covers an IPv4 target, and the other way round (Contains compares lengths) *)
+Lemma contains_family_mismatch a x :
+  List.length (fst (net_num_mask a)) <> List.length (match to4 x with Some y => y | None => x end) ->
+  contains a x = false.
+Proof.
+  intros H. unfold contains. destruct (net_num_mask a) as [nn m]. cbn [fst] in H.
+  destruct (len (match to4 x with Some y => y | None => x end) =? len nn) eqn:E; [|reflexivity].
+  apply Z.eqb_eq in E. unfold len in E. apply Nat2Z.inj in E. exfalso. apply H. symmetry. exact E.
 Qed.
